@@ -128,10 +128,25 @@ class StmtMixin:
     def st_Nonlocal(self, st, fr):
         pass
 
+    def _import_guarded(self, st, fr) -> bool:
+        """is this import statement inside a try whose handlers catch ImportError (an optional dependency)?"""
+        for t in ast.walk(fr.fi.node):
+            if isinstance(t, ast.Try) and any(st is x for b in t.body for x in ast.walk(b)):
+                for h in t.handlers:
+                    names = [] if h.type is None else [ast.unparse(e) for e in (h.type.elts if isinstance(h.type, ast.Tuple) else [h.type])]
+                    if h.type is None or any(n.split(".")[-1] in ("ImportError", "ModuleNotFoundError") for n in names):
+                        return True
+        return False
+
     def st_Import(self, st, fr):
         for a in st.names:
             nm = (a.asname or a.name).split(".")[0]
             from .terms import ModRef
+
+            if a.name.split(".")[0] not in ("cascade", "earthkit") and a.name not in self.repo.modules and self._import_guarded(st, fr):
+                # optional third-party module imported under `except ImportError`: both outcomes are explored
+                if self.decide(f"import_fails({a.name})", st):
+                    self.raise_implicit("builtins.ImportError", st, fr)
 
             self.store_name(nm, ModRef(a.name if a.asname else a.name.split(".")[0]), fr, None)
 
